@@ -9,6 +9,7 @@ import (
 	"math/rand/v2"
 	"strings"
 
+	schema "github.com/jsightapi/jsight-schema-core"
 	jdoc "github.com/jsightapi/jsight-schema-core/formats/json"
 	"github.com/jsightapi/jsight-schema-core/fs"
 	"github.com/jsightapi/jsight-schema-core/lexeme"
@@ -89,6 +90,12 @@ func refTokens(doc []byte) (string, error) {
 
 // lexTokens drives NextLexeme to the end, checks nesting and spans, and renders
 // the same token stream from the lexemes.
+// c12Between, when set, runs after every NextLexeme call of lexTokens: work on
+// other documents in the middle of a walk.
+var c12Between func()
+
+var c12Companions = []string{`{"k":2}`, `[1,[true,"s"],{}]`, `"s"`, `[1`, `{"a":[null,{"b":-1.5e3}]} x`}
+
 func lexTokens(doc []byte, trailing bool) (tokens string, problem string, p *mon.Panic) {
 	var opts []jdoc.Option
 	if trailing {
@@ -102,6 +109,9 @@ func lexTokens(doc []byte, trailing bool) (tokens string, problem string, p *mon
 		steps := 0
 		for {
 			lex, err := d.NextLexeme()
+			if c12Between != nil {
+				c12Between()
+			}
 			if err != nil {
 				if !errors.Is(err, io.EOF) {
 					problem = "lexeme-error: NextLexeme failed on a document Check() accepts: " + err.Error()
@@ -326,6 +336,38 @@ func c12Doc(r *mon.Run, doc []byte, trailing bool) (deadPrefix bool) {
 	}
 	if got != wantTok {
 		r.Violate("tree", key, fmt.Sprintf("%q: tree rebuilt from lexemes is %s; independent decoder gives %s", mon.Trunc(string(doc), 80), mon.Trunc(got, 200), mon.Trunc(wantTok, 200)), cs)
+		return false
+	}
+	// several documents in flight: the same walk with another document stepped
+	// (created, checked, measured) between any two lexemes gives the same stream
+	if len(doc) <= 4 || doc[len(doc)/2]%8 == byte(len(doc)%8) {
+		comp := c12Companions[len(doc)%len(c12Companions)]
+		var other schema.Document
+		k := 0
+		c12Between = func() {
+			k++
+			if other == nil {
+				other = jdoc.New("other", comp, jdoc.AllowTrailingNonSpaceCharacters())
+				if k%2 == 0 {
+					_ = other.Check()
+				}
+				if k%3 == 0 {
+					_, _ = other.Len()
+				}
+			}
+			if _, e := other.NextLexeme(); e != nil {
+				other = nil
+			}
+		}
+		got2, problem2, p2 := lexTokens(doc, trailing)
+		c12Between = nil
+		r.Count("walks_repeated_with_another_document_in_flight", 1)
+		switch {
+		case p2 != nil:
+			r.Violate("panic", "json.Document.NextLexeme(interleaved)/"+p2.Site, fmt.Sprintf("NextLexeme panicked on %q while %q was being walked in between: %s", mon.Trunc(string(doc), 80), comp, p2.Value), cs)
+		case problem2 != "" || got2 != got:
+			r.Violate("interleaved", key, fmt.Sprintf("%q walked alone gives %s; with the document %q stepped between its lexemes: %s %s", mon.Trunc(string(doc), 80), mon.Trunc(got, 160), comp, mon.Trunc(got2, 160), problem2), cs)
+		}
 	}
 	return false
 }
